@@ -175,15 +175,18 @@ def argmaxFirst (xs : List ν) : Option Nat :=
   | [] => none
   | x :: _ => some (argmaxGo xs 0 (0, x))
 
-/-- `NaiveBayes::predict_inplace` (after the fix): the entries of the joint-log-likelihood map
-are sorted by class, row `c` of the likelihood matrix is class `c`, each sample gets the class
-at the arg-max of its column.  `none` = the `unwrap()` panic on an empty class table. -/
-def nbPredict (jll : List (κ × List ν)) (n : Nat) : Option (List κ) :=
-  let s := sortByKey jll
+/-- the arg-max part of `predict_inplace` on the class table in the order `s` -/
+def nbPredictIn (s : List (κ × List ν)) (n : Nat) : Option (List κ) :=
   (List.range n).mapM fun i =>
     match argmaxFirst (s.map fun e => e.2.getD i 0) with
     | none => none
     | some c => (s[c]?).map (·.1)
+
+/-- `NaiveBayes::predict_inplace` (after the fix): the entries of the joint-log-likelihood map
+are sorted by class, row `c` of the likelihood matrix is class `c`, each sample gets the class
+at the arg-max of its column.  `none` = the `unwrap()` panic on an empty class table. -/
+def nbPredict (jll : List (κ × List ν)) (n : Nat) : Option (List κ) :=
+  nbPredictIn (sortByKey jll) n
 
 end NaiveBayes
 
@@ -209,15 +212,18 @@ inductive Stop (α : Type) where
   | numClusters (max : Nat)
   | distance (dis : α)
 
+/-- `should_stop` of one iteration: `clusters.len() <= max_clusters` resp. `step.dissimilarity >= dis` -/
+def shouldStop {α : Type} [LE α] [DecidableLE α] (stop : Stop α) (len : Nat) (d : α) : Bool :=
+  match stop with
+  | .numClusters max => decide (len ≤ max)
+  | .distance dis => decide (dis ≤ d)
+
 /-- the merge loop over `res.steps()`; `none` = an `unwrap()` panic (a step naming a dead cluster) -/
 def mergeLoop {α : Type} [LE α] [DecidableLE α] (stop : Stop α) :
     List (Nat × Nat × α) → List (Nat × List Nat) → Nat → Option (List (Nat × List Nat))
   | [], clusters, _ => some clusters
   | (c1, c2, d) :: steps, clusters, ct =>
-    let shouldStop := match stop with
-      | .numClusters max => decide (clusters.length ≤ max)
-      | .distance dis => decide (dis ≤ d)
-    if shouldStop then some clusters
+    if shouldStop stop clusters.length d then some clusters
     else match removeKey c1 clusters with
       | none => none
       | some (a, cl1) =>
@@ -225,15 +231,21 @@ def mergeLoop {α : Type} [LE α] [DecidableLE α] (stop : Stop α) :
         | none => none
         | some (b, cl2) => mergeLoop stop steps (cl2 ++ [(ct, a ++ b)]) (ct + 1)
 
-/-- the labelling (after the fix): clusters sorted by smallest member, numbered in that order,
-`tmp[id] = i` for every member -/
+/-- `tmp[id] = i` for every member `id` of the `i`-th cluster of the list -/
+def labelsIn (n : Nat) (clusters : List (Nat × List Nat)) : List Nat :=
+  (clusters.zipIdx).foldl (fun tmp e => e.1.2.foldl (fun t id => t.set id e.2) tmp) (List.replicate n 0)
+
+/-- `clusters.sort_unstable_by_key(|(_, ids)| ids.iter().min().copied())` -/
+def sortClusters (clusters : List (Nat × List Nat)) : List (Nat × List Nat) :=
+  clusters.mergeSort (fun a b => decide (minKey a.2 ≤ minKey b.2))
+
+/-- the labelling (after the fix): clusters sorted by smallest member, numbered in that order -/
 def hierLabels (n : Nat) (clusters : List (Nat × List Nat)) : List Nat :=
-  let sorted := clusters.mergeSort (fun a b => decide (minKey a.2 ≤ minKey b.2))
-  (sorted.zipIdx).foldl (fun tmp e => e.1.2.foldl (fun t id => t.set id e.2) tmp) (List.replicate n 0)
+  labelsIn n (sortClusters clusters)
 
 /-- the labelling as it was before the fix: ids follow the map's iteration order -/
 def hierLabelsOrig (n : Nat) (clusters : List (Nat × List Nat)) : List Nat :=
-  (clusters.zipIdx).foldl (fun tmp e => e.1.2.foldl (fun t id => t.set id e.2) tmp) (List.replicate n 0)
+  labelsIn n clusters
 
 /-- `transform`: `n` singleton clusters `0..n-1`, merge loop, labelling -/
 def hierTransform {α : Type} [LE α] [DecidableLE α] (n : Nat) (stop : Stop α)
